@@ -37,6 +37,12 @@ CHECKS["C08"] = dict(
     ref="DESIGN.md section 4 / C08",
 )
 
+CHECKS["C20"] = dict(
+    technique="static analysis: partition typestate of the matching sets (co-location + dominance of guards) and exhaustive CFG path enumeration of the edit-script loop body",
+    text="Every matching_set.add is co-located with the removal of both ids from the unmatched sets, guarded by a both-unmatched proof and by the same-type test (also through the candidate heap); every acyclic path through the per-pair loop body of _generate_edit_script appends exactly one Keep or Update (none only under delta_only) and the two unmatched loops append exactly one Remove/Insert per id; hashes cached on uncopied inputs are evicted in finally and no tree mutator is called by the distiller. These are the mechanisms behind 'each node accounted for exactly once' and 'inputs untouched'; 'delta empty iff equal' depends on run-time similarity scores and is not decided.",
+    ref="DESIGN.md section 4 / C20",
+)
+
 NOT_APPLICABLE = {
     "C02": "oracle is SQLite/DuckDB evaluation semantics (NULL ordering, division, || precedence); not present in the source, no structural clause implies row equality",
     "C03": "result-multiset equality of optimized vs original query over all databases; guards are semantic conditions, only checkable as frozen fragments (false-alarm prone)",
